@@ -1,4 +1,5 @@
 import Wal.Model.Wire
+import Wal.Lemmas.Mono
 /-!
 # C16 — API, source file, -c and compiled .wo runs agree; passes are idempotent
 
@@ -97,6 +98,16 @@ theorem twice_eq_once_let : twice (.list true [.op .LET, .list true [.list true 
       .list true [.op .FN, .list true [s "b"], .list true [.op .ADD, s "a", s "b", .int 1, .int 2]]]) =
     once (.list true [.op .LET, .list true [.list true [s "a", .int 1]],
       .list true [.op .FN, .list true [s "b"], .list true [.op .ADD, s "a", s "b", .int 1, .int 2]]]) := by decide +kernel
+
+/-- **the outcome of a run through the passes does not depend on the fuel of the model**: two completed runs of the
+same form in the same state, whichever passes are switched on, with any two amounts of fuel, yield the same value and
+the same state — so the paths can be compared by their results, the bound the driver runs with is not observable -/
+theorem pipeline_fuel_irrelevant (m : Mode) (n n' : Nat) (st : St) (e : Sx) (r r' : Sx × St)
+    (h : walEval m n st e = .ok r) (h' : walEval m n' st e = .ok r') : r = r' := by
+  have h1 := Mono.walEval_mono m n (max n n') (Nat.le_max_left _ _) st e r h
+  have h2 := Mono.walEval_mono m n' (max n n') (Nat.le_max_right _ _) st e r' h'
+  rw [h1] at h2
+  exact Except.ok.inj h2
 
 /-- the shape on which a second optimisation is not the identity: a head position that optimises into an operator -/
 theorem second_pass_witness :
